@@ -47,6 +47,9 @@ var c12plan = msgsPlan{
 	Opening: true,
 	// M proposes a sub-channel, never completes the opening, later the matching funding update arrives
 	HalfOpen: true,
+	// a sync message racing with an honest update that the victim accepts; the parent funding update after the
+	// victim's funding wait has timed out; a final sub-channel update whose acceptance cannot be delivered
+	SyncRace: true, FundLate: true, FinUndeliv: true,
 	Extra: []extraScenario{
 		{Name: "hub-settle/M/hubsettle/stray-rej-virtual-id+hubsettle/valid"},
 		// (A2, A7) crafted proposals that reach the handler, which ACCEPTS
@@ -95,7 +98,11 @@ func c12check(ssc schedrun.Scenario, s *vsched.Sched, o any) []schedrun.Verdict 
 		}
 		return append(out, probeVerdicts("C12", obs)...)
 	}
-	if obs.Variant == "opening" || obs.Variant == "halfopen" {
+	if map[string]bool{"opening": true, "halfopen": true, "syncrace": true, "fundlate": true, "finundeliv-fail": true, "finundeliv-block": true}[obs.Variant] {
+		if strings.HasPrefix(obs.Variant, "finundeliv") && len(obs.Undeliv) == 0 {
+			out = append(out, schedrun.Verdict{Property: "C12", Clause: "harness-error", Site: msgsSite(obs),
+				Detail: "the acceptance that was to fail was never published (" + obs.OwnRes + "): the case is vacuous"})
+		}
 		return append(out, probeVerdicts("C12", obs)...)
 	}
 	if obs.OwnHonest {
@@ -124,6 +131,8 @@ var c08rejMode = msgsMode{Prop: "C08", Reject: true, Probe: true}
 
 var c08rejPlan = msgsPlan{Points: msgsBasePoints, Cats: map[string]bool{"proposal": true},
 	NoncePts: map[string]string{"ledger": "nochan", "sub": "open-v1"},
+	// a sub-channel proposal that arrives while an accepted parent update is still being handled
+	HeldUpd: true,
 	// (A5) after the colluding ends' honest matched funding the hub holds the virtual channel: a virtual
 	// channel proposal naming THAT channel as the receiver's parent must not reach the handler
 	Extra: []extraScenario{{Name: "hub-collude~gap/M/hubpair/valid+hubpair/vprop-on-held-virtual"}}}
